@@ -325,7 +325,7 @@ _RULE_EXTRA = {
     "C14": "; 1 in 5 scenarios inject the fault into discard (crash or single error at each of its store operations) and discard again; commit faults as crash or single error",
     "C15": "; 1 in 8 logged sets run with a failing reflog insert (SQL trigger): must fail and change nothing",
     "C16": "; 1 in 4 cases: a merge of 2..3 branches (256..955 rows) with a deleted block / block index of base or branch or reads failing after k, under a 20 s watchdog, and without fault compared with the one-processor outcome; the table index is compared too",
-    "C17": "; every 4-byte window of small objects overwritten by a huge count; profiles declaring fewer field names; commit / table / profile bytes also read through the store getters",
+    "C17": "; well-formed packfiles whose block decompresses but is invalid, or whose table object lies about its blocks (key index out of range, wrong row count, wrong width); every 4-byte window of small objects overwritten by a huge count; profiles declaring fewer field names; commit / table / profile bytes also read through the store getters",
     "C19": "; keyless tables over a tiny alphabet with the empty cell; the two outputs must agree also when keys repeat",
     "C20": "; 1 in 8: 256..335 hashes sharing a first byte added in one batch",
 }
